@@ -53,3 +53,19 @@ Print Assumptions C14_refused_when_in_use.
 
 Example C14_nonvacuous : mid_seq 3 65534 = [65535; 1; 2].
 Proof. reflexivity. Qed.
+
+From PahoV Require Import Conc.Sched Conc.MidGen.
+(* callers on different threads never receive the same id: for EVERY interleaving (schedule s) of any
+   number of publisher threads, at the granularity of one shared access per step, the ids returned to
+   different (thread, message) pairs differ as long as fewer than 65535 are allocated in the run
+   (mutual exclusion on _mid_generate_mutex; model Conc/Sched.v; GIL atomicity of a single attribute
+   load/store is the model's assumption) *)
+Theorem C14_threads : forall m0 l0 pipe0 nmsgs s i j p q k1 m1 b1 k2 m2 b2, 0 <= m0 <= 65535 ->
+  let c := sched_run s (init m0 l0 pipe0 nmsgs) in
+  Z.of_nat (length (alloc_log c)) <= 65535 ->
+  nth_error (pubs c) i = Some p -> nth_error (pubs c) j = Some q ->
+  In (k1, m1, b1) (results p) -> In (k2, m2, b2) (results q) ->
+  (i, k1) <> (j, k2) -> m1 <> m2.
+Proof. exact mids_distinct. Qed.
+Print Assumptions C14_threads.
+
